@@ -300,6 +300,9 @@ type layoutContext struct {
 	currentPageFootnotes []Box
 	reportedFootnotes    []Box
 	currentFootnoteArea  *bo.FootnoteAreaBox
+	// footnotes reported to the next page when the page of this index was made:
+	// needed again when a repagination keeps the page as it is
+	reportedFootnotesAfterPage map[int][]Box
 
 	currentPage int
 	pageBottom  pr.Float
@@ -331,6 +334,7 @@ func newLayoutContext(html *tree.HTML, stylesheets []tree.CSS,
 	self.counterStyle = counterStyle
 	self.runningElements = make(map[string]map[int][]Box)
 	self.brokenOutOfFlow = make(map[Box]brokenBox)
+	self.reportedFootnotesAfterPage = make(map[int][]Box)
 
 	// Cache
 	self.stringSet = make(map[string]map[int][]string)
